@@ -250,7 +250,8 @@ cache_mem %s
 
     def _rm_shm(self):
         for f in os.listdir("/dev/shm"):
-            if f.startswith("squid-%s-" % self.name) or f.startswith("squid-%s_" % self.name) or f == "squid-" + self.name:
+            if f.startswith("squid-%s-" % self.name) or f.startswith("squid-%s_" % self.name) or f == "squid-" + self.name \
+               or f.startswith(self.name + "-") or f.startswith(self.name + "_"):
                 try:
                     os.unlink(os.path.join("/dev/shm", f))
                 except OSError:
